@@ -145,12 +145,24 @@ def call_run_case(mod, case):
     sys.setrecursionlimit(depth + 1200)
     armed = _arm_wall_watchdog()
     hits0 = _WALL["hits"]
+    debug_log = isinstance(case, dict) and case.get("debug_log")
+    if debug_log:
+        # the application has switched the library's logger to DEBUG (records are built and handled, output dropped)
+        lg = logging.getLogger("goodwe")
+        if not any(isinstance(h, logging.NullHandler) for h in lg.handlers):
+            lg.addHandler(logging.NullHandler())
+        lg.propagate = False
+        lg.setLevel(logging.DEBUG)
+        logging.disable(logging.NOTSET)
     try:
         res = mod.run_case(case)
         if _WALL["hits"] > hits0 and isinstance(res, dict):
             res["wall_hits"] = _WALL["hits"] - hits0
         return res
     finally:
+        if debug_log:
+            logging.disable(logging.CRITICAL)
+            logging.getLogger("goodwe").setLevel(logging.NOTSET)
         if armed:
             signal.setitimer(signal.ITIMER_REAL, 0)
         sys.setrecursionlimit(old)
